@@ -163,6 +163,20 @@ func c14Run(ctx *core.Ctx) {
 			})
 			batch(srv, false, ops)
 		}
+		// (3b) Unicode white space at the edges of a value that is the last thing on the line
+		for _, srv := range []bool{true, false} {
+			var ops []c14Op
+			for _, ws := range []string{"\u00a0", "\u0085", "\u2003", "\u3000", "\u1680", "\u2028", "\u205f", "\ufeff"} {
+				for _, v := range []string{"end" + ws, ws + "start", ws, "mid" + ws + "dle", "two" + ws + ws} {
+					ops = append(ops, c14Op{Kind: "rcpt", Addr: "r@x.test", ORcptType: "UTF-8", ORcpt: v + "@x.test", Judged: true, Field: "ORCPT-utf8-ws"})
+					ops = append(ops, c14Op{Kind: "rcpt", Addr: "r@x.test", ORcptType: "UTF-8", ORcpt: "o@x.test" + ws, Judged: true, Field: "ORCPT-utf8-ws"})
+					ops = append(ops, c14Op{Kind: "rcpt", Addr: "r@x.test", ORcptType: "UTF-8", ORcpt: "x@" + v, Judged: true, Field: "ORCPT-utf8-ws"})
+					av := "user@dom" + ws
+					ops = append(ops, c14Op{Kind: "mail", Addr: "s@x.test", HasAuth: true, Auth: av, Judged: false, Field: "AUTH-ws"})
+				}
+			}
+			batch(srv, false, ops)
+		}
 		// (4) NOTIFY, RET, SIZE, RRVS, flags, option subsets
 		{
 			var ops []c14Op
